@@ -620,66 +620,182 @@ def findings():
 
 
 # ------------------------------------------------------------------ running the implementation
-CASE_CPU = 20           # CPU seconds per case in the harness (ITIMER_PROF; a normal case takes microseconds, a table-ring construction < 2 s)
-CASE_CPU_AFTER_HANG = 4
-CASE_CPU_RETRY = 120    # budget of the single re-run of a case that did not return
+CASE_CPU = 10           # first stage: CPU seconds per call inside a stream (ITIMER_PROF in the harness; a call normally takes microseconds,
+                        # the construction of the largest table ring < 2 s).  CPU time does not depend on the machine load.
+CASE_CPU_RETRY = 30     # confirmation: the one call re-run alone
+MAX_CONFIRMATIONS = 3   # per run (all streams / worker threads share HANG)
+MAX_OVERRUNS = 6        # first-stage overruns per run; then every stream stops where it is
+MAX_CRASHES_PER_FORM = 4
 MODEL_CPU = 1200        # CPU seconds for one ring's stream through the extracted model (normally 1-3 s)
+import threading
+HANG = {"lock": threading.Lock(), "procs": set(), "confirming": 0, "confirmed": 0, "overruns": 0, "dead_forms": {}, "crashes": {}, "stopped_streams": [], "not_driven": 0}
+
+
+def run_harness(binary, text, budget, timeout):
+    """one harness process (own Popen, registered so that the thread that sees the run reach its cap can stop the other workers' processes by PID
+    with SIGTERM: the harness then flushes the answers it has and exits 76).  Returns (rc, lines, err) like vf.run_lines."""
+    import subprocess
+    try:
+        p = subprocess.Popen([binary, str(budget)], stdin=subprocess.PIPE, stdout=subprocess.PIPE, stderr=subprocess.PIPE, universal_newlines=True, errors="replace")
+    except OSError as ex:
+        return 127, [], str(ex)
+    with HANG["lock"]:
+        HANG["procs"].add(p)
+    try:
+        try:
+            o, e = p.communicate(text, timeout=timeout)
+            rc = p.returncode
+        except subprocess.TimeoutExpired:
+            p.kill()
+            o, e = p.communicate()
+            rc, e = 124, "[timeout]"
+    finally:
+        with HANG["lock"]:
+            HANG["procs"].discard(p)
+    return rc, (o or "").splitlines(), e
+
+
+def stop_other_workers():
+    """the cap is reached: the streams that are still running are told to stop (SIGTERM to our own child processes, by PID)"""
+    with HANG["lock"]:
+        procs = list(HANG["procs"])
+    for p in procs:
+        try:
+            p.terminate()
+        except OSError:
+            pass
+
+
+def form_of(line):
+    """the call form a harness line drives: (ring, source type) - whatever the operation / the way the domain object was obtained"""
+    t = line.split()
+    return (t[1], t[2]) if len(t) > 2 else ("?", "?")
 
 
 def run_impl(binary, lines, timeout=1800, slow=None):
     """feed lines; survive a crash of the harness: the crashing line is reported as CRASH and the rest is resumed (the harness flushes the
-    completed answers in its signal handlers, so the attribution is exact).  A case that exhausts its CPU budget (harness exit 75 after a
-    HANG line) is re-run ALONE with a larger budget: if it still does not return it is reported as `HANG`, a concrete failing input; if it
-    does, its answer is used and the case is recorded in `slow`.  A wall-clock time-out of the whole stream leaves TIMEOUT lines
-    (inconclusive, never a failure)."""
-    out = []
-    rest = list(lines)
+    completed answers in its signal handlers, so the attribution is exact).
+    Hangs, bounded cost: a call that exhausts CASE_CPU inside the stream (harness exit 75 after a HANG line) is re-run ALONE with CASE_CPU_RETRY;
+    if it still does not return it is a concrete failing input (`HANG`), and its call form (ring, source type) is not driven any more in this
+    run (remaining lines of the form -> SKIPPED).  At most MAX_CONFIRMATIONS confirmations and MAX_OVERRUNS first-stage overruns per RUN (shared
+    by all worker threads): then the stream stops (remaining lines -> SKIPPED, recorded, never counted as compared).  After MAX_CRASHES_PER_FORM
+    crashes a form is not driven any more either.  A wall-clock time-out of the whole stream leaves TIMEOUT lines (inconclusive)."""
+    out = [None] * len(lines)
+    todo = list(range(len(lines)))          # indices still to be answered, in order
     guard = 0
-    nhang = 0
-    while rest and guard < 60:
+
+    def drop_dead():
+        nonlocal todo
+        with HANG["lock"]:
+            dead = set(HANG["dead_forms"])
+        if dead:
+            keep = []
+            for ix in todo:
+                if form_of(lines[ix]) in dead:
+                    out[ix] = "SKIPPED"
+                else:
+                    keep.append(ix)
+            todo = keep
+
+    def stop_stream(why):
+        nonlocal todo
+        for ix in todo:
+            out[ix] = "SKIPPED"
+        with HANG["lock"]:
+            HANG["stopped_streams"].append("%s: %s (%d cases not driven)" % (form_of(lines[0])[0] if lines else "?", why, len(todo)))
+        todo = []
+
+    while todo and guard < 80:
         guard += 1
-        # (once a case of this stream is CONFIRMED not to return, the rest of the stream runs with a small budget and without re-runs:
-        #  a change that hangs on a whole class of inputs must not stretch the check to hours)
-        rc, o, err = vf.run_lines(binary, "".join(l + "\n" for l in rest), timeout=timeout, args=(str(CASE_CPU if nhang == 0 else CASE_CPU_AFTER_HANG),))
+        drop_dead()
+        with HANG["lock"]:
+            capped = HANG["confirmed"] >= MAX_CONFIRMATIONS or HANG["overruns"] >= MAX_OVERRUNS
+        if capped:
+            stop_stream("the run reached its cap of confirmed hangs / first-stage overruns")
+            break
+        if not todo:
+            break
+        rc, o, err = run_harness(binary, "".join(lines[ix] + "\n" for ix in todo), CASE_CPU, timeout)
         o = [l for l in o if not l.startswith("#")]
+        if rc in (76, -15):
+            # stopped by another worker thread (the run reached its cap): keep the answers, the rest is not driven
+            n = min(len(o), len(todo))
+            for ix, l in zip(todo[:n], o[:n]):
+                out[ix] = l
+            todo = todo[n:]
+            stop_stream("stopped: the run reached its cap of confirmed hangs / first-stage overruns in another stream")
+            break
         if rc == 124 and err == "[timeout]":
             # our own tooling ran out of WALL time (machine load): the unanswered cases are inconclusive, not failures of the property
-            n = min(len(o), len(rest))
-            if n and n < len(rest):
+            n = min(len(o), len(todo))
+            if n and n < len(todo):
                 n -= 1                       # the last line may be cut
-            return out + o[:n] + ["TIMEOUT"] * (len(rest) - n)
-        if rc == 0 and len(o) == len(rest):
-            out += o
-            rest = []
+            for ix, l in zip(todo[:n], o[:n]):
+                out[ix] = l
+            for ix in todo[n:]:
+                out[ix] = "TIMEOUT"
+            todo = []
             break
-        if rc == 75 and o and o[-1] == "HANG" and len(o) <= len(rest):
+        if rc == 0 and len(o) == len(todo):
+            for ix, l in zip(todo, o):
+                out[ix] = l
+            todo = []
+            break
+        if rc == 75 and o and o[-1] == "HANG" and len(o) <= len(todo):
             n = len(o) - 1
-            out += o[:n]
-            if nhang >= 1:
-                # a case of this stream was already confirmed not to return with the large budget: further ones are not re-run
-                out.append("HANG")
-                rest = rest[n + 1:]
+            for ix, l in zip(todo[:n], o[:n]):
+                out[ix] = l
+            hx = todo[n]
+            todo = todo[n + 1:]
+            form = form_of(lines[hx])
+            with HANG["lock"]:
+                HANG["overruns"] += 1
+                may_confirm = HANG["confirmed"] + HANG["confirming"] < MAX_CONFIRMATIONS and form not in HANG["dead_forms"]
+                if may_confirm:
+                    HANG["confirming"] += 1             # the slot is reserved under the lock: the workers share the cap
+                capped = HANG["overruns"] >= MAX_OVERRUNS
+            if capped:
+                stop_other_workers()
+            if not may_confirm:
+                out[hx] = "SKIPPED"
                 continue
-            rc2, o2, err2 = vf.run_lines(binary, rest[n] + "\n", timeout=timeout, args=(str(CASE_CPU_RETRY),))
+            rc2, o2, err2 = vf.run_lines(binary, lines[hx] + "\n", timeout=timeout, args=(str(CASE_CPU_RETRY),))
             o2 = [l for l in o2 if not l.startswith("#")]
+            with HANG["lock"]:
+                HANG["confirming"] -= 1
             if rc2 == 0 and len(o2) == 1:
-                out.append(o2[0])
+                out[hx] = o2[0]
                 if slow is not None:
-                    slow.append(rest[n])
+                    slow.append(lines[hx])
             elif rc2 == 124 and err2 == "[timeout]":
-                out.append("TIMEOUT")
+                out[hx] = "TIMEOUT"
             elif rc2 == 75:
-                out.append("HANG")
-                nhang += 1
+                out[hx] = "HANG"
+                with HANG["lock"]:
+                    HANG["confirmed"] += 1
+                    HANG["dead_forms"][form] = lines[hx]
+                    capped = HANG["confirmed"] >= MAX_CONFIRMATIONS
+                if capped:
+                    stop_other_workers()
             else:
-                out.append("CRASH rc=%s" % rc2)
-            rest = rest[n + 1:]
+                out[hx] = "CRASH rc=%s" % rc2
             continue
-        n = min(len(o), len(rest) - 1)
-        out += o[:n]
-        out.append("CRASH rc=%s" % rc)
-        rest = rest[n + 1:]
-    out += ["CRASH guard"] * len(rest)
+        # a crash: the line after the answered ones
+        n = min(len(o), len(todo) - 1)
+        for ix, l in zip(todo[:n], o[:n]):
+            out[ix] = l
+        cx = todo[n]
+        out[cx] = "CRASH rc=%s" % rc
+        todo = todo[n + 1:]
+        form = form_of(lines[cx])
+        with HANG["lock"]:
+            HANG["crashes"][form] = HANG["crashes"].get(form, 0) + 1
+            if HANG["crashes"][form] >= MAX_CRASHES_PER_FORM:
+                HANG["dead_forms"].setdefault(form, lines[cx])
+    for ix in todo:
+        out[ix] = "SKIPPED"
+    with HANG["lock"]:
+        HANG["not_driven"] += sum(1 for l in out if l == "SKIPPED")
     return out
 
 
@@ -946,6 +1062,8 @@ def main(tier, replay=None):
             if line == "NOFORM":
                 absent.add("%s %s %s" % (ring, op if not how else op + "@" + how.split(":")[0], src))
                 continue
+            if line == "SKIPPED":
+                continue                # the form was taken out of the run after a confirmed hang / repeated crashes, or the stream was stopped
             if line == "TIMEOUT":
                 inconclusive["implementation stream of " + ring] = inconclusive.get("implementation stream of " + ring, 0) + 1
                 continue
@@ -962,8 +1080,9 @@ def main(tier, replay=None):
             if len(chk.cov["samples"]) < 12 and i % 1499 == 7:
                 chk.sample({"case": case, "impl": line, "model": mo[i] if mo is not None else None})
             if line == "HANG":
-                chk.fail_input(site, kl, case, "a result", "does not return",
-                               "the call did not return within %d s of CPU time (re-run alone after exceeding %d s inside the stream)" % (CASE_CPU_RETRY, CASE_CPU))
+                chk.fail_input(site, "does-not-return", case, "a result", "does not return",
+                               "the call did not return within %d s of CPU time (re-run alone after exceeding %d s inside the stream); input class %s; "
+                               "the call form is not driven any further in this run" % (CASE_CPU_RETRY, CASE_CPU, kl))
                 continue
             if line.startswith("CRASH") or line.startswith("BAD"):
                 chk.fail_input(site, kl, case, "a result", line, "the call crashed (or the harness refused the input)")
@@ -1148,13 +1267,20 @@ def main(tier, replay=None):
              "ModularExtended tail == p inputs": (sum(v for k, v in chk.cov.get("extended_reduce_tail_classes", {}).items() if k.endswith("tail==p")), 1000)}
     missed = {k: {"got": g, "floor": f} for k, (g, f) in floor.items() if g < f}
     chk.cov["inconclusive"] = inconclusive
+    chk.cov["hang_and_crash_handling"] = {
+        "budgets": {"first stage CPU s per call": CASE_CPU, "confirmation CPU s (call re-run alone)": CASE_CPU_RETRY, "max confirmations per run": MAX_CONFIRMATIONS,
+                    "max first-stage overruns per run": MAX_OVERRUNS, "crashes after which a form is not driven any more": MAX_CRASHES_PER_FORM},
+        "confirmed_does_not_return": HANG["confirmed"], "first_stage_overruns": HANG["overruns"],
+        "forms_taken_out_of_the_run": {"%s <- %s" % k: v for k, v in HANG["dead_forms"].items()},
+        "crashes_by_form": {"%s <- %s" % k: v for k, v in HANG["crashes"].items()},
+        "streams_stopped": HANG["stopped_streams"], "cases_not_driven": HANG["not_driven"]}
     chk.cov["slow_cases_rerun_alone"] = slow_cases[:20]
     chk.cov["floor"] = {k: {"got": g, "floor": f} for k, (g, f) in floor.items()}
     if not replay:
         chk.cov["floor_missed"] = missed
-        if missed and not inconclusive:
+        if missed and not inconclusive and not HANG["not_driven"]:
             chk.broke("the run compared less than its floor although no tooling time-out occurred: %r" % missed)
-        elif missed:
+        elif missed and inconclusive:
             print("INCONCLUSIVE: property=C04 tooling time-outs %r; below the floor: %r" % (sorted(inconclusive), missed), flush=True)
     chk.cov["distribution_by_ring_and_source"] = {k: v for k, v in dist.items() if "/" in k and not k.startswith(("rt-through/", "how/"))}
     # every public call form of the operations the property names, with the number of cases that drove it
